@@ -53,7 +53,33 @@ fn unhex(s: &str) -> Vec<u8> {
     (0..s.len() / 2).map(|i| u8::from_str_radix(&s[2 * i..2 * i + 2], 16).unwrap()).collect()
 }
 
+/// A chain of containers that each hold exactly one value (a one-element array, a one-entry
+/// dictionary) is written flat as ["n", [wrapper...], inner] with wrapper "a" or ["d", key]: JSON
+/// readers (serde_json, Python) limit the nesting depth, the documents of the nesting-depth
+/// dimension do not.
 fn pv_to_json(v: &Value) -> J {
+    let mut wrappers: Vec<J> = vec![];
+    let mut cur = v;
+    loop {
+        match cur {
+            Value::Array(a) if a.len() == 1 => {
+                wrappers.push(json!("a"));
+                cur = &a[0];
+            }
+            Value::Dictionary(d) if d.len() == 1 => {
+                let (k, x) = d.iter().next().unwrap();
+                wrappers.push(json!(["d", k]));
+                cur = x;
+            }
+            _ => break,
+        }
+    }
+    if wrappers.len() >= 2 {
+        return json!(["n", wrappers, pv_to_json_plain(cur)]);
+    }
+    pv_to_json_plain(v)
+}
+fn pv_to_json_plain(v: &Value) -> J {
     match v {
         Value::String(s) => json!(["s", s]),
         Value::Integer(i) => json!(["i", i.to_string()]),
@@ -158,6 +184,20 @@ fn pv_from_json(j: &J) -> Value {
         "t" => Value::Date(plist::Date::from_xml_format(v.as_str().unwrap()).unwrap()),
         "a" => Value::Array(v.as_array().unwrap().iter().map(pv_from_json).collect()),
         "m" => Value::Dictionary(dict_from_json(v)),
+        "n" => {
+            let mut x = pv_from_json(&j[2]);
+            for w in v.as_array().unwrap().iter().rev() {
+                x = match w.as_str() {
+                    Some(_) => Value::Array(vec![x]),
+                    None => {
+                        let mut d = Dictionary::new();
+                        d.insert(w[1].as_str().unwrap().into(), x);
+                        Value::Dictionary(d)
+                    }
+                };
+            }
+            x
+        }
         _ => panic!("bad plist tag in replay file"),
     }
 }
@@ -342,6 +382,51 @@ fn cls_reader(d: &DesignSpaceDocument) -> (bool, bool) {
     let norm = attr_strings(d).iter().any(|s| s.contains(['\t', '\n', '\r'])) || libs_any(d, &|s: &str| s.contains('\r'));
     (forb, norm)
 }
+/// open containers at the deepest point of a lib (the lib's own dictionary counts as one)
+fn pv_depth(v: &Value) -> usize {
+    match v {
+        Value::Array(a) => 1 + a.iter().map(pv_depth).max().unwrap_or(0),
+        Value::Dictionary(d) => 1 + d.values().map(pv_depth).max().unwrap_or(0),
+        _ => 0,
+    }
+}
+fn lib_depth(d: &DesignSpaceDocument) -> usize {
+    let top = |l: &Dictionary| if l.is_empty() { 0 } else { 1 + l.values().map(pv_depth).max().unwrap_or(0) };
+    d.instances.iter().map(|i| top(&i.lib)).max().unwrap_or(0).max(top(&d.lib))
+}
+/// a chain of `depth` containers around a leaf: kind 0 alternating array/dict, 1 arrays, 2 dicts
+fn nest(kind: usize, depth: usize, leaf: Value) -> Value {
+    let mut x = leaf;
+    for level in (0..depth).rev() {
+        let as_array = match kind { 1 => true, 2 => false, _ => level % 2 == 0 };
+        x = if as_array {
+            Value::Array(vec![x])
+        } else {
+            let mut d = Dictionary::new();
+            d.insert(if level % 3 == 0 { "k".into() } else { format!("level{}", level % 7) }, x);
+            Value::Dictionary(d)
+        };
+    }
+    x
+}
+fn nest_doc(kind: usize, depth: usize, place: usize) -> DesignSpaceDocument {
+    let mut d = minimal_doc();
+    let mut inst = Instance { familyname: None, stylename: None, name: Some("deep".into()), filename: None,
+        postscriptfontname: None, stylemapfamilyname: None, stylemapstylename: None,
+        location: vec![Dimension { name: "W".into(), uservalue: None, xvalue: Some(1.0), yvalue: None }], lib: Dictionary::new() };
+    let leaf = || Value::String("leaf".into());
+    // the lib's own dictionary is one container: the chain below a key has depth - 1
+    if place != 1 {
+        d.lib.insert("nested".into(), nest(kind, depth - 1, leaf()));
+        d.lib.insert("flat".into(), Value::Integer(1.into()));
+    }
+    if place != 0 {
+        inst.lib.insert("nested".into(), nest(kind, depth - 1, leaf()));
+    }
+    d.instances.push(inst);
+    d
+}
+
 fn f32_has_nan(d: &DesignSpaceDocument) -> bool {
     fn pv_nan(v: &Value) -> bool {
         match v {
@@ -860,7 +945,7 @@ fn run_case(i: usize, d0: &DesignSpaceDocument, out: &Path, tmp: &Path, pre: &st
     let (forb, norm) = cls_reader(d);
     let mut rec = json!({
         "i": i, "doc": doc_to_json(d), "wf": wf(d), "cls_trim": cls_trim(d),
-        "cls_forbidden": forb, "cls_norm": norm, "has_nan": f32_has_nan(d), "pre": pre,
+        "cls_forbidden": forb, "cls_norm": norm, "has_nan": f32_has_nan(d), "pre": pre, "lib_depth": lib_depth(d),
     });
     // reference: the same document saved to a path that does not exist
     let saved = catch(|| d.save(&fresh));
@@ -1037,7 +1122,19 @@ fn load_dir(dir: &Path) {
     write_file(&dir.join("loaded.jsonl"), &out);
 }
 
+/// everything runs on a thread with a 256 MiB stack: the deeply nested libs must never exhaust the
+/// harness's own stack (norad's recursion, plist's drop, the JSON dump)
 pub fn main(a: &Args) {
+    std::thread::scope(|s| {
+        std::thread::Builder::new()
+            .stack_size(256 << 20)
+            .spawn_scoped(s, || main_inner(a))
+            .expect("spawn")
+            .join()
+            .unwrap_or_else(|_| std::process::exit(3));
+    });
+}
+fn main_inner(a: &Args) {
     if let Some(pos) = a.extra.iter().position(|x| x == "--load-dir") {
         load_dir(Path::new(&a.extra[pos + 1]));
         return;
@@ -1106,6 +1203,24 @@ pub fn main(a: &Args) {
         lines.push_str(&rec.to_string());
         lines.push('\n');
         i += 1;
+    }
+    // the nesting-depth dimension of libs: 1..12 densely, then a few deep ones around the powers of two
+    // (all below the recorded class of C03, stack exhaustion beyond 512 levels)
+    let mut depths: Vec<usize> = (1..=12).collect();
+    depths.extend_from_slice(&[50, 100, 126, 127, 128, 129, 130, 131, 200, 300, 400]);
+    for (n, depth) in depths.iter().enumerate() {
+        let kinds: Vec<usize> = if *depth <= 12 || (126..=131).contains(depth) { vec![0, 1, 2] } else { vec![n % 3] };
+        for kind in kinds {
+            let places: Vec<usize> = if (126..=131).contains(depth) { vec![0, 1] } else { vec![(n + kind) % 3] };
+            for place in places {
+                let d = nest_doc(kind, *depth, place);
+                let mut rec = run_case(i, &d, &a.out, tmp.path(), "fresh");
+                rec["kind"] = json!("lib-nesting");
+                lines.push_str(&rec.to_string());
+                lines.push('\n');
+                i += 1;
+            }
+        }
     }
     write_file(&a.out.join("cases.jsonl"), &lines);
     let (cnt, bad) = l1_floats(&mut master, if a.thorough() { 2_000_000 } else { 200_000 });
